@@ -9,7 +9,7 @@ sel = sys.argv[1:]
 
 
 def run(kind, name, checks):
-    p = os.path.join(HERE, "selftest", kind, name + ".diff")
+    p = os.path.join(HERE, "selftest", kind, name + ".diff") if kind != "seeded" else os.path.join(HERE, "seeded", name, "patch.diff")
     r = subprocess.run([os.path.join(HERE, "tools", "mutant.sh"), p] + checks, capture_output=True, text=True, env=dict(os.environ, MUT_SHOW="1"))
     got = {}
     for line in r.stdout.splitlines():
@@ -20,15 +20,15 @@ def run(kind, name, checks):
 
 
 jobs = []
-for kind in ("mutants", "benign"):
-    for name, checks in sorted(exp[kind].items()):
+for kind in ("mutants", "benign", "seeded"):
+    for name, checks in sorted(exp.get(kind, {}).items()):
         if sel and not any(s in name for s in sel):
             continue
         jobs.append((kind, name, checks))
 bad = 0
 with cf.ThreadPoolExecutor(max_workers=6) as ex:
     for kind, name, checks, got, out in ex.map(lambda j: run(*j), jobs):
-        want = 1 if kind == "mutants" else 0
+        want = 0 if kind == "benign" else 1
         ok = all(got.get(c) == want for c in checks)
         print("%-8s %-40s %s %s" % (kind, name, "ok " if ok else "FAIL", {c: got.get(c) for c in checks}))
         if not ok:
